@@ -125,13 +125,17 @@ StepRun(e)  == /\ run' = [inp |-> e.input, cfg |-> CfgOf(e.cfg), tag |-> e.tag, 
                /\ m' = IF Mode = "LB"
                         THEN [ok |-> TRUE, why |-> "", s |-> InitBuf(CfgOf(e.cfg).cap0, e.sched),
                               live |-> (\A i \in 1..Len(e.sched) : e.sched[i] >= -1) /\ ~("multi" \in DOMAIN e)]
+                        ELSE IF Mode = "L1"     \* ReaderCore sees the whole input: runs whose source pauses, returns Ok(0) early or fails are LB's / the monitors' business
+                        THEN [ok |-> TRUE, why |-> "", live |-> (\A i \in 1..Len(e.sched) : e.sched[i] > 0)]
                         ELSE MonInit
                /\ UNCHANGED <<c, skip>>
 StepNextL1(e) ==
+  IF "live" \in DOMAIN m /\ ~m.live THEN UNCHANGED <<c, run, r, m, skip>> ELSE
   LET s == NextCall(c.sch, run.cfg, run.inp, r) IN
   IF ResEq(e, s.res) /\ (("st" \in DOMAIN e) => e.st.cap = Capacity(run.cfg.cap0, s.r)) THEN r' = s.r /\ UNCHANGED <<c, run, m, skip>>
   ELSE Reject(l, <<"L1 next", c.n, run.tag, "expected", Brief(s.res), Capacity(run.cfg.cap0, s.r)>>) /\ skip' = TRUE /\ UNCHANGED <<c, run, r, m>>
 StepRecoverL1(e) ==
+  IF "live" \in DOMAIN m /\ ~m.live THEN UNCHANGED <<c, run, r, m, skip>> ELSE
   LET s == RecoverCall(c.sch, run.cfg, run.inp, r) IN
   IF (s.ok /\ e.res = "ok") \/ (~s.ok /\ e.res = "eof" /\ e.pos = s.e.pos) THEN r' = s.r /\ UNCHANGED <<c, run, m, skip>>
   ELSE Reject(l, <<"L1 recover", c.n, run.tag, "expected ok", s.ok>>) /\ skip' = TRUE /\ UNCHANGED <<c, run, r, m>>
